@@ -152,7 +152,9 @@ func (h *htpasswdMap) GetUsers() map[string]interface{} {
 
 // Validate checks a users password against the htpasswd entries
 func (h *htpasswdMap) Validate(user string, password string) bool {
+	h.rwm.RLock()
 	realPassword, exists := h.users[user]
+	h.rwm.RUnlock()
 	if !exists {
 		return false
 	}
